@@ -293,6 +293,7 @@ INS_CLASSES = {"1": "C14:null-dart-corrupted-or-map-ill-formed", "2": "edge not 
 KERNEL_TRUST = PROPS["C01"]["trusted"][:3] + [
     "hand-written Gallina transcription of the kernel (Map2/Kern2.v) on top of the core model; geometry on PrimFloat f64"]
 PROPS["C14"] = dict(
+    translators=True,
     level="translation_validation",
     level_text="the kernel is transcribed in Gallina (Kern2.v) and compared with the implementation on every observation; the "
                "property itself (k+1 consecutive segments, positions under the cell id, both sides glued, everything else "
@@ -309,7 +310,9 @@ PROPS["C14"] = dict(
     families=[
         Family("kern-insert", "core2", r_kern("insert", 1500, 30000), 1, [(7, "insert_spec", INS_CLASSES)]),
     ],
-    trusted=KERNEL_TRUST,
+    trusted=KERNEL_TRUST + ["translator tools/tr_kern.py (cell_insertion/vertices.rs::insert_vertex_on_edge -> Map2/GenKern.v, proved "
+                            "equal to the model by reflexivity: C14_single_insertion_is_the_source); insert_vertices_on_edge stays "
+                            "hand-transcribed"],
     assumptions=PROPS["C01"]["assumptions"],
 )
 
